@@ -592,13 +592,14 @@ Lemma listener_of_sim mask mask' nl :
 Proof.
   generalize 0%nat. induction nl as [|n IH]; intros s; cbn [seq map]; constructor; [|apply IH].
   intros ev. unfold rsim, listener_of.
-  destruct (Z.testbit mask (Z.of_nat s + 4)); destruct (Z.testbit mask' (Z.of_nat s + 4));
+  destruct (Z.testbit mask (Z.of_nat s + 8)); destruct (Z.testbit mask' (Z.of_nat s + 8));
+    destruct (Z.testbit mask (Z.of_nat s + 4)); destruct (Z.testbit mask' (Z.of_nat s + 4));
     destruct (Z.testbit mask (Z.of_nat s)); destruct (Z.testbit mask' (Z.of_nat s)); reflexivity.
 Qed.
 
 (* every layer's listener invocations contain whatever its listeners do *)
 Lemma listeners_contained ids ls : lcontained ids ls.
-Proof. intros id Hin. apply subscribed_contains. unfold guarded_of. apply catch_drop_contains. Qed.
+Proof. intros id Hin. apply subscribed_contains. unfold guarded_of. apply catch_loop_contains. Qed.
 
 (* ... the whole mode-4 trace (outcomes, absolute per-layer / per-listener / per-kind counts, and the
    counts of the reference run) of EVERY script is the trace of the same script with no panicking
